@@ -27,9 +27,10 @@ TrueBid == "A"          \* hash a, part-set header p
 \* other block ids: "B" (other hash), "Ap" (same hash, other part-set header), "Z" (zero)
 
 \* power vectors, non-increasing (NewValidatorSet sorts by power, then address); several
-\* totals are divisible by 3 so that  > 2/3  and  >= 2/3  differ
-PVsQuick == {<< >>, <<1>>, <<2, 1>>, <<1, 1, 1>>, <<3, 2, 1>>, <<1, 1, 1, 1>>, <<2, 2, 1, 1>>, <<3, 1, 1, 1>>, <<5, 2, 1, 1>>}
-PVsMore  == {<<3, 3>>, <<2, 2, 2>>, <<4, 1, 1>>, <<7, 1, 1>>, <<2, 1, 1, 1>>, <<3, 3, 2, 1>>, <<4, 4, 3, 1>>,
+\* totals are divisible by 3 so that  > 2/3  and  >= 2/3  differ, others are 1 and 2 mod 3 so that
+\* total*2/3 and total/3*2 differ
+PVsQuick == {<< >>, <<1>>, <<1, 1>>, <<2, 1>>, <<1, 1, 1>>, <<3, 2, 1>>, <<1, 1, 1, 1>>, <<2, 2, 1, 1>>, <<2, 1, 1, 1>>, <<5, 2, 1, 1>>}
+PVsMore  == {<<3, 3>>, <<2, 2, 2>>, <<4, 1, 1>>, <<7, 1, 1>>, <<3, 1, 1, 1>>, <<3, 3, 2, 1>>, <<4, 4, 3, 1>>,
              <<5, 5, 1, 1>>, <<4, 2, 2, 1>>, <<6, 3, 2, 1>>, <<3, 3, 3, 3>>}
 PVs == IF PVTier = 1 THEN PVsQuick ELSE PVsQuick \cup PVsMore
 
